@@ -271,13 +271,16 @@ func TransCtrlSeq(str string, ansi bool) (dst string, change bool) {
 	dst = fmtPat.ReplaceAllStringFunc(
 		str,
 		func(str string) string {
-			f, ok := fmtCode[str[2]]
+			f, ok := fmtCode[str[2]|0x20] // codes are case-insensitive
 			if ok {
 				if ansi {
 					change = true
 					return "\033[" + f + "m" // enable, add ANSI code
 				}
 				return "" // disable, remove the § code
+			}
+			if !ansi {
+				return "" // a § code without ANSI equivalent (§k)
 			}
 			return str // not a § code
 		},
